@@ -1138,6 +1138,59 @@ async def c03_programs_bounded(w):
             "reproduced": bool(failures)}
 
 
+async def c04_ident(w):
+    """ident_any_values_changed / ident_values_changed on concrete values built from the solver model, against the
+    statement's predicate computed independently."""
+    from types import SimpleNamespace as NS
+    from custom_components.pyscript.state import StateVal
+    from custom_components.pyscript import trigger as T
+    await boot()
+
+    def mk(shape, s, tag):
+        if shape is None:
+            return None
+        attrs = {a: f"{tag}-{a}" for a in shape}
+        return StateVal(NS(state=s, attributes=attrs, entity_id="d.e", last_updated=tag + "lu", last_changed=tag + "lc", last_reported=tag + "lr"))
+    new_s = "on"
+    old_s = "on" if not w.get("value_changed") else "off"
+    value, old = mk(w["value_shape"], new_s, "n"), mk(w["old_shape"], old_s, "o")
+    idents = []
+    for i in w["idents"]:
+        base = "d.e" if i["same_entity"] else "x.y"
+        attr = i["attr"].split(":", 1)[1] if ":" in i["attr"] else "zzz"
+        n = i["nparts"]
+        idents.append({1: "solo", 2: base, 3: f"{base}.{attr}", 4: f"{base}.{attr}.more"}.get(n, base))
+    fa = {"trigger_type": "state", "var_name": "d.e", "value": value, "old_value": old}
+    got = getattr(T, w["which"])(fa, set(idents))
+    sv = lambda v: None if v is None else str(v)
+    ga = lambda v, a: getattr(v, a, None)
+    if w["which"] == "ident_any_values_changed":
+        want = False
+        for n in idents:
+            p = n.split(".")
+            if n == "d.e" and sv(value) != sv(old):
+                want = True
+            if len(p) == 3 and p[:2] == ["d", "e"]:
+                if p[2] == "*":
+                    names = set(value.__dict__ if value is not None else ()) | set(old.__dict__ if old is not None else ())
+                    names -= {"entity_id", "last_changed", "last_updated", "last_reported"}
+                    want = want or any(ga(value, a) != ga(old, a) for a in names)
+                else:
+                    want = want or ga(value, p[2]) != ga(old, p[2])
+    else:
+        want = False
+        for n in idents:
+            p = n.split(".")
+            if len(p) in (2, 3) and p[:2] == ["d", "e"]:
+                if len(p) == 2 or p[2] == "old":
+                    want = want or sv(value) != sv(old)
+                else:
+                    want = want or ga(value, p[2]) != ga(old, p[2])
+    await shutdown()
+    return {"reproduced": bool(got) != bool(want), "observed": {"idents": idents, "returned": got, "specified": want},
+            "expected": "the function equals the statement's qualifying predicate"}
+
+
 SCENARIOS = {k: v for k, v in list(globals().items()) if asyncio.iscoroutinefunction(v) and k[0] == "c"}
 
 if __name__ == "__main__":
